@@ -75,6 +75,10 @@ def gen_fields(rng, info, profile):
     r = rng.random()
     thr_pool = info["thresholds"] + [t for t in W.THRESHOLDS if t not in info["thresholds"]][:1]
     q_pool = info["quantiles"] + [q for q in W.QUANTILES if q not in info["quantiles"]][:1]
+    if rng.random() < profile.get("p_near_equal", 0.25):
+        # values that np.isclose calls equal but that are different numbers (cache-key identity vs equality)
+        thr_pool = thr_pool + [t * (1 - 8e-7) for t in thr_pool[-2:]] + [thr_pool[-1] * (1 + 6e-7)]
+        q_pool = q_pool + [q - 2e-7 for q in q_pool[-1:]]
     single = False
     if r < 0.30:
         fields = [["Obs"], ["Fcst"]]
@@ -176,6 +180,25 @@ def client_script(rng, info, profile, kind):
         for i in range(n):
             for s in [gen_index(rng, axis) for _ in range(rng.randint(1, 2))]:
                 ops.append({"op": "req", "fields": fields, "single": False, "input": i, "axis": axis, "index": s})
+    elif kind == "near_equal":
+        # two requests whose threshold / quantile differ by less than np.isclose's tolerance:
+        # equal for ==, different numbers for the data
+        members = info["members"] > 0
+        if rng.random() < 0.75 or not info["quantiles"] and not members:
+            pool = [t for t in W.THRESHOLDS if t not in info["thresholds"]] if members and rng.random() < 0.7 else list(W.THRESHOLDS)
+            t = rng.choice(pool or W.THRESHOLDS)
+            pair = [["Threshold", t], ["Threshold", t * (1 - 8e-7) if rng.random() < 0.5 else t * (1 + 6e-7)]]
+        else:
+            q = rng.choice(W.QUANTILES)
+            pair = [["Quantile", q], ["Quantile", q - 2e-7]]
+        if rng.random() < 0.5:
+            pair.reverse()
+        axis = gen_axis(rng, profile)
+        s_ = gen_index(rng, axis)
+        i = rng.randrange(n)
+        lead = [["Obs"]] if rng.random() < 0.7 else []
+        for f in pair + ([pair[0]] if rng.random() < 0.3 else []):
+            ops.append({"op": "req", "fields": lead + [f], "single": False, "input": i, "axis": axis, "index": s_})
     else:  # random
         for _ in range(rng.randint(1, 4)):
             fields, single = gen_fields(rng, info, profile)
@@ -186,7 +209,7 @@ def client_script(rng, info, profile, kind):
 
 
 CLIENT_KINDS = ["metric_loop", "metric_loop", "diagram", "auto_threshold", "probabilistic", "from_field", "random",
-                "random"]
+                "random", "near_equal"]
 
 
 def nc_vars(party):
